@@ -121,7 +121,7 @@ func main() {
 		r.Finish()
 	}
 	if r.Fork(16) {
-		r.Set("rule", "all strings up to the length bound over the 24-symbol alphabet "+string(sigma)+" (every metacharacter plus representatives), canonical prints of the C02 pattern trees, all single-character insertions/deletions/replacements of the prints of trees with <= 2 (quick) / 3 (thorough) operator nodes, meaningless ranges, every class name (known to the implementation or documented, and near misses) in 10 contexts, and every character (all of ASCII plus 5 others) in 30 item contexts (escape, bracket item, range end, repetition count, class name, hex digit); non-trivial = accepted by at least one entry point (or a meaningless-range case); distinct by text")
+		r.Set("rule", "all strings up to the length bound over the 24-symbol alphabet "+string(sigma)+" (every metacharacter plus representatives), canonical prints of the C02 pattern trees, all single-character insertions/deletions/replacements of the prints of trees with <= 2 (quick) / 3 (thorough) operator nodes, meaningless ranges, repetition counts written with up to 19 leading zeros, every class name (known to the implementation or documented, and near misses) in 10 contexts, and every character (all of ASCII plus 5 others) in 30 item contexts (escape, bracket item, range end, repetition count, class name, hex digit); non-trivial = accepted by at least one entry point (or a meaningless-range case); distinct by text")
 		r.Set("evaluations", r.Get("strings"))
 		r.Finish()
 	}
@@ -235,6 +235,28 @@ func main() {
 					p := "a{" + lo + "," + hi + "}"
 					checkMeaningless(r, p, []string{"{" + lo + "," + hi + "}", "repetition"})
 				}
+			}
+		}
+		// counts written with leading zeros: a sentence of the grammar (num = digit+), with the value the digits denote
+		pad := func(s string, k int) string { return strings.Repeat("0", k) + s }
+		for _, pr := range [][2]string{{"2", "12"}, {"0", "1"}, {"1", "1"}, {"3", "3"}, {"0", "0"}, {"7", "10"}, {"20", "3"}, {"7", "5"}, {"12", "11"}, {"1", "0"}} {
+			for _, k1 := range []int{0, 1, 3, 4, 5, 6, 9, 19} {
+				for _, k2 := range []int{0, 1, 4, 5, 6, 19} {
+					lo, hi := pad(pr[0], k1), pad(pr[1], k2)
+					ascending := val(pr[0]) <= val(pr[1])
+					for _, ctx := range []string{"a{%s,%s}", "(ab){%s,%s}?", "[ab]{%s,%s}c"} {
+						p := fmt.Sprintf(ctx, lo, hi)
+						if ascending {
+							checkString(r, p, "padded_counts", true)
+						} else {
+							checkMeaningless(r, p, []string{"repetition", "{"})
+						}
+					}
+				}
+			}
+			for _, k1 := range []int{1, 4, 5, 6, 19} {
+				checkString(r, "a{"+pad(pr[0], k1)+"}", "padded_counts", true)
+				checkString(r, "a{"+pad(pr[0], k1)+",}", "padded_counts", true)
 			}
 		}
 		checkString(r, "", "empty", false)
